@@ -64,6 +64,7 @@ def is_nt_date(d):
 
 
 class DateForms(Sub):
+    ambient = True
     name = "date_forms"
     kind = "enum"
     n = {"quick": 0, "thorough": 0}
@@ -149,6 +150,7 @@ def time_str(c):
 
 
 class DateTimeForms(Sub):
+    ambient = True
     name = "datetime_forms"
     n = {"quick": 12000, "thorough": 400000}
     shards = {"quick": 3, "thorough": 8}
@@ -224,6 +226,7 @@ def rt_case(draw):
 
 
 class RoundTrip(Sub):
+    ambient = True
     name = "string_roundtrip"
     n = {"quick": 8000, "thorough": 200000}
     shards = {"quick": 2, "thorough": 8}
@@ -261,6 +264,7 @@ def invalid_for_year(y):
 
 
 class Impossible(Sub):
+    ambient = True
     name = "impossible_dates"
     kind = "enum"
     n = {"quick": 0, "thorough": 0}
